@@ -43,7 +43,10 @@ Inductive ev :=
 | ESched                                (* scheduler(self._tick) called *)
 | ECancel                               (* the delayed call cancelled *)
 | EExc (x : exc)                        (* the operation raised x *)
-| EDefErr (j : nat).                    (* resume() raised NotPaused inside Deferred j's callback *)
+| EDefErr (j : nat)                     (* resume() raised NotPaused inside Deferred j's callback *)
+| EApp (t : nat)                        (* ghost: _tasks.append(t) *)
+| ERem (t : nat)                        (* ghost: _tasks.remove(t) *)
+| EClear.                               (* ghost: _tasks is (found) empty and _metarator restarts *)
 
 Record task := mkT {
   script : list action;
@@ -111,7 +114,7 @@ Definition reschedule (s : st) : st :=
   else s.
 
 Definition remove_task (t : nat) (s : st) : st :=
-  let s1 := set_tasks (remove_first t (tasks s)) s in
+  let s1 := emit (ERem t) (set_tasks (remove_first t (tasks s)) s) in
   if is_nil (tasks s1) && delayed s1 then emit ECancel (set_delayed false s1) else s1.
 
 (* ---- CooperativeTask._completeWith ---- *)
@@ -125,7 +128,7 @@ Definition complete (t : nat) (c : cstate) (r : result) (s : st) : st :=
 
 (* ---- Cooperator._addTask ---- *)
 Definition add_task (t : nat) (s : st) : st :=
-  let s1 := set_tasks (tasks s ++ [t]) s in
+  let s1 := emit (EApp t) (set_tasks (tasks s ++ [t]) s) in
   if stopped s then complete t CSched RSched s1 else reschedule s1.
 
 (* CooperativeTask.resume() once _pauseCount > 0 is known *)
@@ -175,7 +178,7 @@ Fixpoint units (n : nat) (s : st) : st :=
   | 0 => s                                    (* terminator() returned true *)
   | S n' =>
       match next_task s with
-      | (None, s1) => s1
+      | (None, s1) => emit EClear s1
       | (Some t, s1) => units n' (work_unit t s1)
       end
   end.
@@ -214,7 +217,7 @@ Definition fire (j : nat) (ok : bool) (s : st) : st :=
 Definition coop_stop (s : st) : st :=
   let s1 := set_stopped true s in
   let s2 := fold_left (fun s t => complete t CSched RSched s) (tasks s1) s1 in
-  let s3 := set_meta 0 (set_tasks [] s2) in      (* self._tasks = []: _metarator is left on the old, now empty list *)
+  let s3 := emit EClear (set_meta 0 (set_tasks [] s2)) in   (* self._tasks = []: _metarator is left on the old, now empty list *)
   if delayed s3 then emit ECancel (set_delayed false s3) else s3.
 
 Definition coop_start (s : st) : st :=
